@@ -56,6 +56,11 @@ def wtranspose(word):
 REG = {}      # per-context registries live on the Ctx (uf_cache); this is only the key
 
 
+def _used(what):
+    from . import npmodel
+    npmodel.USED.add("matrix layer axiom: " + what)
+
+
 def _reg():
     c = ctx()
     return c.uf_cache.setdefault("matalg", {"chol": {}, "inv": {}, "diag": {}, "atoms": {}, "ginv": {}})
@@ -554,6 +559,8 @@ def identity(n):
 def _diag_of(m):
     """Diag(m) for a column / vector Mat: linear in the normal form"""
     m2 = m.as2d()
+    _used("broadcast products with a row / column vector are products with Diag(.): Diag(a) Diag(b) = Diag(b) Diag(a), "
+          "Diag(a) b = Diag(b) a, 1^T Diag(a) = a^T, (Diag(a) B)_ij = a_i B_ij")
     if not dim_is(m2.cols, 1):
         m2 = m2._t2()
         if not dim_is(m2.cols, 1):
@@ -623,6 +630,7 @@ class HadamardTensor(Tensor):
     def sum(self, axis=None):
         if axis is not None:
             return Tensor.sum(self, axis)
+        _used("sum_ij (A o B)_ij = tr(A^T B); the trace is cyclic and invariant under transposition")
         At = self.A._t2()
         out = 0
         for w1, c1 in At.nf.items():
@@ -701,6 +709,7 @@ def general_inverse(X):
     if not isinstance(X, Mat) or X.vec or not dim_eq(X.rows, X.cols):
         raise Unsupported("solve with a non-abstract or non-square matrix")
     reg = _reg()
+    _used("solve(X, B) = X^-1 B with X X^-1 = X^-1 X = I (X assumed invertible)")
     k = X.key()
     if k not in reg["ginv"]:
         Xi = Atom(f"inv({k})", X.rows, X.rows, symmetric=False, kind="inv", meta=_single_atom(X))
@@ -736,6 +745,9 @@ def cholesky(X):
     if not isinstance(X, Mat) or X.vec or not dim_eq(X.rows, X.cols):
         raise Unsupported("cholesky of a non-abstract matrix")
     reg = _reg()
+    _used("ring laws of matrix products/transposes; S^T = S for declared-symmetric atoms; a 1x1 product equals its transpose")
+    _used("L = cholesky(X): L^-T L^-1 = X^-1, X^-1 L = L^-T, L^T X^-1 = L^-1, sum_i log L_ii = logdet(X)/2; "
+          "solve_triangular(L, B, lower=True) = L^-1 B, solve_triangular(L.T, B) = L^-T B")
     k = X.key()
     if k not in reg["chol"]:
         n = X.rows
@@ -849,6 +861,7 @@ def dmat(M, datom):
     """derivative of a normal form by the product rule; datom(atom, transposed) -> Mat (2-D) or None for constants.
     Built-in:  d(X^-1) = -X^-1 dX X^-1  (X the matrix the inverse atom was created for),  d Diag(w) = Diag(dw)"""
     M2 = M.as2d()
+    _used("matrix calculus: product rule, d(X^-1) = -X^-1 dX X^-1, d logdet X = tr(X^-1 dX)")
     out = Mat(M2.rows, M2.cols, {})
     for w, c in M2.nf.items():
         for pos, (a, t) in enumerate(w):
